@@ -9,5 +9,6 @@ CONSTANTS
   HistOps = {"attestation", "attestations", "proposal", "randao", "slot_selection", "sync_selection", "aggregate_and_proof", "sync_root", "contribution", "registration"}
   HistKinds = {"plain", "plain_dist", "prot", "prot_dist"}
   HistFails = {"none", "domain", "signer", "nilsig"}
+  GateModes = {"d", "s", "ds", "none"}
 INVARIANTS Emit
 CHECK_DEADLOCK FALSE
